@@ -58,7 +58,9 @@ def cause(mol, u, v, kind):
     eu, ru, tu = where(mol, u)
     ev, rv, tv = where(mol, v)
     listed = tu is not None and any(d.tr is not None for d in tu.descs)
-    if listed and kind in ("termination", "stochastic", "stochastic+termination"):
+    # the known defect concerns TERMINATION edges out of a listed descriptor (and listed end groups reached by stochastic edges);
+    # listed weights between repeat units are compared exactly
+    if listed and (kind in ("termination", "stochastic+termination") or (kind == "stochastic" and rv == "end")):
         return "listed-source"
     return f"{ru}->{rv}" + ("" if eu == ev else ":next-element")
 
